@@ -2044,6 +2044,20 @@ Qed.
 
 End UpStructure.
 
+Section LeafLive.
+Context {L : Type}.
+Notation arena := (@arena L).
+Implicit Types (t : arena).
+
+Lemma leaf_live t a : WFS t -> In a (get_leaves t) -> live t a.
+Proof.
+  intros [Hwf _] H. unfold get_leaves in H. apply in_map_iff in H as (n & <- & Hn).
+  apply filter_In in Hn as [Hn Hb]. apply andb_prop in Hb as [Hd _]. apply negb_true_iff in Hd.
+  apply In_nth_error in Hn as (j & Hj).
+  destruct (WF_node_facts t j n Hwf Hj Hd) as (_ & _ & _ & ->). exists n. auto.
+Qed.
+End LeafLive.
+
 (* ================================================================================================ *)
 (* 8. compress keeps every path length                                                               *)
 (* ================================================================================================ *)
@@ -2362,7 +2376,333 @@ Proof.
   destruct (compress_go_dist _ t a b Hwfs Ha Hb) as (_ & _ & H). exact H.
 Qed.
 
+Corollary compress_leaf_dist t a b :
+  WFS t -> In a (get_leaves t) -> In b (get_leaves t) ->
+  exists d k k', get_distance O t a b = Ok (d, k) /\ get_distance O (snd (compress O t)) a b = Ok (d, k').
+Proof.
+  intros Hwfs Ha Hb. pose proof (compress_wf O t Hwfs) as Hwfs'.
+  rewrite <- (compress_leaves O t Hwfs) in Ha, Hb.
+  apply compress_dist; auto using leaf_live.
+Qed.
+
 End CompressDist.
+
+
+(* ================================================================================================ *)
+(* 9. resolve keeps every path length                                                                *)
+(* ================================================================================================ *)
+Lemma tails_filter_gen (f : nat -> bool) q ta tb :
+  (forall z, In z ta -> In z tb -> False) ->
+  skipn (cpl (filter f (q ++ ta)) (filter f (q ++ tb))) (filter f (q ++ ta)) = filter f ta /\
+  skipn (cpl (filter f (q ++ ta)) (filter f (q ++ tb))) (filter f (q ++ tb)) = filter f tb.
+Proof.
+  intros Hdis. rewrite !filter_app.
+  rewrite cpl_app, (cpl_disjoint (filter f ta) (filter f tb)), Nat.add_0_r.
+  - split; apply skipn_length_app.
+  - intros z Hz1 Hz2. apply filter_In in Hz1 as [Hz1 _]. apply filter_In in Hz2 as [Hz2 _]. eauto.
+Qed.
+
+Section ResolveDist.
+Context {L : Type}.
+Notation arena := (@arena L).
+Notation node := (@node L).
+Implicit Types (t : arena) (n : node).
+Variable O : LenOps L.
+
+Local Arguments reset_depth_f : simpl never.
+
+(* one grouping step of resolve_node_f, as a relation *)
+Definition resolve_once_rel t (node c1 c2 : nat) t8 : Prop :=
+  exists n n1 t2 t3 pn t4 n2 t5 t6 pn2 t7 pp,
+    get t node = Ok n /\ In c1 (nchildren n) /\ In c2 (nchildren n) /\ c1 <> c2 /\
+    let new := length t in
+    let T1 := replace_nth node (node_add_child n new (Some (l0 O)))
+                (t ++ [leaf_node new None None node (Some (l0 O)) (ndepth n + 1)]) in
+    get T1 c1 = Ok n1 /\
+    upd T1 new (fun x => node_add_child x c1 (npedge n1)) = Ok t2 /\
+    upd t2 c1 (fun x => node_set_parent x new (npedge n1)) = Ok t3 /\
+    get t3 node = Ok pn /\
+    match node_remove_child pn c1 with Some pn' => Ok (replace_nth node pn' t3) | None => Err NodeError end = Ok t4 /\
+    get t4 c2 = Ok n2 /\
+    upd t4 new (fun x => node_add_child x c2 (npedge n2)) = Ok t5 /\
+    upd t5 c2 (fun x => node_set_parent x new (npedge n2)) = Ok t6 /\
+    get t6 node = Ok pn2 /\
+    match node_remove_child pn2 c2 with Some pn' => Ok (replace_nth node pn' t6) | None => Err NodeError end = Ok t7 /\
+    get t7 new = Ok pp /\
+    reset_depth_f (fuel_of t7) t7 new (ndepth pp) = Ok t8.
+
+(* any reflexive transitive relation that holds for every grouping step holds for resolve *)
+Section Steps.
+Variable R : arena -> arena -> Prop.
+Hypothesis R_refl : forall t, R t t.
+Hypothesis R_trans : forall t1 t2 t3, R t1 t2 -> R t2 t3 -> R t1 t3.
+Hypothesis R_step : forall t node c1 c2 t8, WFS t -> resolve_once_rel t node c1 c2 t8 -> R t t8.
+
+Lemma resolve_node_steps : forall fuel t node ch t' rest,
+  WFS t -> resolve_node_f O fuel t node ch = Ok (Some (t', rest)) -> R t t'.
+Proof.
+  induction fuel as [|f IH]; intros t node ch t' rest Hwfs H; [discriminate|].
+  simpl in H.
+  apply bind_Ok in H as (n & Hgn & H).
+  destruct ch as [|[c1 c2] ch']; [discriminate|].
+  destruct (negb (mem_nat c1 (nchildren n) && mem_nat c2 (nchildren n) && negb (Nat.eqb c1 c2))) eqn:Hcond; [discriminate|].
+  apply negb_false_iff in Hcond. apply andb_prop in Hcond as [Hcond Hc12]. apply andb_prop in Hcond as [Hc1 Hc2].
+  apply mem_nat_In in Hc1, Hc2. apply negb_true_iff, Nat.eqb_neq in Hc12.
+  rewrite (add_child_Ok _ _ _ _ _ _ Hgn) in H. rewrite bind_ret in H.
+  apply bind_Ok in H as (n1 & Hg1 & H).
+  apply bind_Ok in H as (t2 & Ht2 & H).
+  apply bind_Ok in H as (t3 & Ht3 & H).
+  apply bind_Ok in H as (pn & Hgpn & H).
+  apply bind_Ok in H as (t4 & Ht4 & H).
+  apply bind_Ok in H as (n2 & Hg2 & H).
+  apply bind_Ok in H as (t5 & Ht5 & H).
+  apply bind_Ok in H as (t6 & Ht6 & H).
+  apply bind_Ok in H as (pn2 & Hgpn2 & H).
+  apply bind_Ok in H as (t7 & Ht7 & H).
+  apply bind_Ok in H as (pp & Hgpp & H).
+  apply bind_Ok in H as (t8 & Ht8 & H).
+  assert (Hrel : resolve_once_rel t node c1 c2 t8).
+  { exists n, n1, t2, t3, pn, t4, n2, t5, t6, pn2, t7, pp. cbv zeta. splits; auto. }
+  pose proof (R_step _ _ _ _ _ Hwfs Hrel) as HR8.
+  destruct (resolve_once_exact O t node n c1 c2 n1 t2 t3 pn t4 n2 t5 t6 pn2 t7 pp t8
+              Hwfs Hgn Hc1 Hc2 Hc12 Hg1 Ht2 Ht3 Hgpn Ht4 Hg2 Ht5 Ht6 Hgpn2 Ht7 Hgpp Ht8) as (Hwfs8 & _).
+  destruct (Nat.leb (length (nchildren n) - 1) 2).
+  - injection H as <- <-. auto.
+  - eapply R_trans; [exact HR8|]. eapply IH; eauto.
+Qed.
+
+Lemma resolve_fold_steps : forall l tc ch tf chf,
+  WFS tc -> foldM (resolve_step O) l (Some (tc, ch)) = Ok (Some (tf, chf)) -> R tc tf.
+Proof.
+  induction l as [|id l IH]; intros tc ch tf chf Hwfs H; cbn [foldM] in H.
+  - injection H as <- <-. auto.
+  - apply bind_Ok in H as (st & Hst & H). unfold resolve_step in Hst.
+    destruct st as [[t1 ch1]|]; [|rewrite resolve_fold_None in H; discriminate].
+    destruct (resolve_node_exact O _ _ _ _ _ _ Hwfs Hst) as (Hwfs1 & _).
+    eapply R_trans; [eapply resolve_node_steps; eauto|]. eapply IH; eauto.
+Qed.
+
+Theorem resolve_steps t t' choices : WFS t -> resolve O t choices = Ok (Some t') -> R t t'.
+Proof.
+  intros Hwfs H. unfold resolve in H. apply bind_Ok in H as (r & Hfold & H).
+  destruct r as [[t2 [|]]|]; try discriminate. injection H as <-.
+  change (foldM (resolve_step O) (map nid (filter (fun n : node => Nat.ltb 2 (length (nchildren n))) t))
+            (Some (t, choices)) = Ok (Some (t2, []))) in Hfold.
+  eapply resolve_fold_steps; eauto.
+Qed.
+End Steps.
+
+(* liveness, parents and lengths after one grouping step *)
+Lemma resolve_once_up t node c1 c2 t8 :
+  WFS t -> resolve_once_rel t node c1 c2 t8 ->
+  let new := length t in
+  WFS t8 /\ length t8 = S (length t) /\ node < new /\
+  (exists nN, nth_error t8 new = Some nN /\ ndeleted nN = false /\ nparent nN = Some node /\
+              npedge nN = Some (l0 O)) /\
+  (exists n1 n2, nth_error t c1 = Some n1 /\ nth_error t c2 = Some n2 /\
+                 nparent n1 = Some node /\ nparent n2 = Some node) /\
+  (forall j m, nth_error t j = Some m ->
+     exists m8, nth_error t8 j = Some m8 /\ ndeleted m8 = ndeleted m /\ npedge m8 = npedge m /\
+       nparent m8 = (if Nat.eqb j c1 || Nat.eqb j c2 then Some new else nparent m)).
+Proof.
+  intros Hwfs (n & n1 & t2 & t3 & pn & t4 & n2 & t5 & t6 & pn2 & t7 & pp & Hgn & Hc1 & Hc2 & Hc12 & Hrel) new.
+  cbv zeta in Hrel. destruct Hrel as (Hg1 & Ht2 & Ht3 & Hgpn & Ht4 & Hg2 & Ht5 & Ht6 & Hgpn2 & Ht7 & Hgpp & Ht8).
+  destruct (resolve_once_exact O t node n c1 c2 n1 t2 t3 pn t4 n2 t5 t6 pn2 t7 pp t8
+              Hwfs Hgn Hc1 Hc2 Hc12 Hg1 Ht2 Ht3 Hgpn Ht4 Hg2 Ht5 Ht6 Hgpn2 Ht7 Hgpp Ht8)
+    as (Hwfs8 & Hlen8 & Hn1 & Hn2 & Hc1P & Hc2P & Hlt1 & Hlt2 & HltP &
+        (nP' & SP & Hlab & HchP' & HlenP') & (d1 & S1) & (d2 & S2) & (nN & SN & HN) & So).
+  pose proof Hgn as Hgn'. apply get_Ok in Hgn' as [Hn Hdn]. destruct Hwfs as [Hwf Hse].
+  destruct (WF_child t node n c1 Hwf Hn Hdn Hc1) as (n1' & Hn1' & _ & Hp1 & _).
+  destruct (WF_child t node n c2 Hwf Hn Hdn Hc2) as (n2' & Hn2' & _ & Hp2 & _).
+  assert (n1' = n1) by congruence. assert (n2' = n2) by congruence. subst n1' n2'.
+  splits; auto.
+  - exists nN. destruct HN as (_ & _ & Hp & _ & Hpe & _ & Hd & _). auto.
+  - exists n1, n2. auto.
+  - intros j m Hm.
+    destruct (Nat.eqb_spec j c1) as [->|H1]; [|destruct (Nat.eqb_spec j c2) as [->|H2]]; cbn [orb].
+    + assert (m = n1) by congruence. subst m. eexists. split; [exact S1|]. simpl. auto.
+    + assert (m = n2) by congruence. subst m. eexists. split; [exact S2|]. simpl. auto.
+    + destruct (Nat.eq_dec j node) as [->|H3].
+      * assert (m = n) by congruence. subst m. exists nP'. destruct Hlab as (_ & _ & Hp & He & _ & Hd). auto.
+      * destruct (So j m H3 H1 H2 Hm) as (d & Hd). eexists. split; [exact Hd|]. simpl. auto.
+Qed.
+
+Section Laws.
+Hypothesis ladd_0_r : forall x, ladd O x (l0 O) = x.
+
+Lemma path_len_drop0 (E E8 : nat -> option L) l new :
+  NoDup l -> E8 new = Some (l0 O) -> (forall x, x <> new -> E8 x = E x) ->
+  path_len O (map E (filter (notid new) l)) = path_len O (map E8 l).
+Proof.
+  intros Hnd Hnew Hsame. destruct (in_dec Nat.eq_dec new l) as [Hin|Hnin].
+  - apply in_split in Hin as (u & v & ->).
+    pose proof (NoDup_remove_2 _ _ _ Hnd) as Hn.
+    assert (Hu : ~ In new u) by (intros H; apply Hn; apply in_or_app; auto).
+    assert (Hv : ~ In new v) by (intros H; apply Hn; apply in_or_app; auto).
+    rewrite filter_app. cbn [filter].
+    assert (H1 : notid new new = false) by (unfold notid; rewrite Nat.eqb_refl; auto).
+    rewrite H1, !filter_notid_id by auto. rewrite !map_app. cbn [map]. rewrite Hnew.
+    assert (Eu : map E u = map E8 u).
+    { apply map_ext_in. intros x Hx. symmetry. apply Hsame. intros ->. auto. }
+    assert (Ev : map E v = map E8 v).
+    { apply map_ext_in. intros x Hx. symmetry. apply Hsame. intros ->. auto. }
+    rewrite Eu, Ev. unfold path_len. rewrite !all_present_app, !present_app.
+    assert (Hap : all_present (Some (l0 O) :: map E8 v) = all_present (map E8 v)) by reflexivity.
+    assert (Hpr : present (Some (l0 O) :: map E8 v) = l0 O :: present (map E8 v)) by reflexivity.
+    rewrite Hap, Hpr.
+    destruct (all_present (map E8 u) && all_present (map E8 v)); auto.
+    f_equal. rewrite !fold_left_app. cbn [fold_left]. rewrite ladd_0_r. reflexivity.
+  - rewrite filter_notid_id by auto. f_equal. apply map_ext_in. intros x Hx. symmetry. apply Hsame.
+    intros ->. auto.
+Qed.
+
+Lemma resolve_once_paths t node c1 c2 t8 root r root8 r8 :
+  WFS t -> resolve_once_rel t node c1 c2 t8 ->
+  Rep t None 0 root r -> Rep t8 None 0 root8 r8 ->
+  forall k q8 x, length q8 <= k -> rpath x r8 = Some q8 -> x <> length t ->
+    rpath x r = Some (filter (notid (length t)) q8).
+Proof.
+  intros Hwfs Hrel HR HR8.
+  destruct (resolve_once_up t node c1 c2 t8 Hwfs Hrel)
+    as (Hwfs8 & Hlen8 & HltP & (nN & SN & HdN & HpN & HeN) & (n1 & n2 & Hn1 & Hn2 & Hp1 & Hp2) & Sup).
+  destruct (WFS_Rep _ _ _ Hwfs HR) as [Hnd Hlive]. destruct (WFS_Rep _ _ _ Hwfs8 HR8) as [Hnd8 Hlive8].
+  set (new := length t) in *.
+  assert (HgN : get t8 new = Ok nN) by (apply get_Ok; auto).
+  assert (HnewIn : In new (ids r8)) by (apply Hlive8; exists nN; auto).
+  assert (Hkeep : forall y, y <> new -> filter (notid new) [y] = [y]).
+  { intros y Hy. simpl. unfold notid. apply Nat.eqb_neq in Hy. rewrite Hy. reflexivity. }
+  assert (Hdrop : filter (notid new) [new] = []).
+  { simpl. unfold notid. rewrite Nat.eqb_refl. reflexivity. }
+  induction k as [|k IH]; intros q8 x Hk Hq Hx.
+  { pose proof (rpath_length _ _ _ Hq). lia. }
+  pose proof (rpath_In _ _ _ Hq) as Hin8.
+  destruct (Rep_ids_live _ _ _ _ _ _ HR8 Hin8) as (m8 & Hm8 & Hdm8).
+  assert (Hg8 : get t8 x = Ok m8) by (apply get_Ok; auto).
+  assert (Hxlt : x < length t).
+  { pose proof (nth_error_Some_lt _ _ _ Hm8). unfold new in Hx. lia. }
+  destruct (nth_error t x) as [m|] eqn:Hm; [|apply nth_error_None in Hm; lia].
+  destruct (Sup x m Hm) as (m8' & Hm8' & Hdm & _ & Hpm). assert (m8' = m8) by congruence. subst m8'.
+  assert (Hg : get t x = Ok m) by (apply get_Ok; split; auto; congruence).
+  assert (Hin : In x (ids r)) by (apply Hlive; exists m; split; auto; congruence).
+  assert (HnodeIn : node <> new) by lia.
+  destruct (Nat.eqb x c1 || Nat.eqb x c2) eqn:Hxc.
+  - assert (Hpx : nparent m = Some node).
+    { apply orb_prop in Hxc as [E|E]; apply Nat.eqb_eq in E; subst x; congruence. }
+    destruct (parent_rpath t8 root8 r8 x m8 new HR8 Hnd8 Hin8 Hg8 Hpm) as (_ & pnew & Hpnew & Hxq).
+    rewrite Hq in Hxq. injection Hxq as ->. rewrite app_length in Hk. simpl in Hk.
+    destruct (parent_rpath t8 root8 r8 new nN node HR8 Hnd8 HnewIn HgN HpN) as (_ & pnode8 & Hpnode8 & Hnq).
+    rewrite Hpnew in Hnq. injection Hnq as ->. rewrite app_length in Hk. simpl in Hk.
+    destruct (parent_rpath t root r x m node HR Hnd Hin Hg Hpx) as (_ & pn & Hpn & Hxq).
+    rewrite (IH pnode8 node) in Hpn; auto; try lia. injection Hpn as <-.
+    rewrite Hxq. f_equal. rewrite !filter_app, Hdrop, Hkeep, app_nil_r; auto.
+  - destruct (nparent m) as [par|] eqn:Hpar.
+    + destruct (parent_rpath t root r x m par HR Hnd Hin Hg Hpar) as (Hparin & pq & Hpq & Hxq).
+      assert (Hparnew : par <> new).
+      { apply (Rep_ids_live _ _ _ _ _ _ HR) in Hparin. apply live_lt in Hparin. unfold new. lia. }
+      destruct (parent_rpath t8 root8 r8 x m8 par HR8 Hnd8 Hin8 Hg8 Hpm) as (_ & pq8 & Hpq8 & Hxq8).
+      rewrite Hq in Hxq8. injection Hxq8 as ->. rewrite app_length in Hk. simpl in Hk.
+      rewrite (IH pq8 par) in Hpq; auto; try lia. injection Hpq as <-.
+      rewrite Hxq. f_equal. rewrite filter_app, Hkeep; auto.
+    + pose proof (Rep_root_unique _ _ _ _ _ _ _ HR Hin Hm Hpar) as Ex.
+      pose proof (Rep_root_unique _ _ _ _ _ _ _ HR8 Hin8 Hm8 Hpm) as Ex8.
+      pose proof (rpath_root r8) as Hr8. rewrite (Rep_rid _ _ _ _ _ HR8), <- Ex8 in Hr8.
+      rewrite Hq in Hr8. injection Hr8 as ->.
+      pose proof (rpath_root r) as Hr. rewrite (Rep_rid _ _ _ _ _ HR), <- Ex in Hr. rewrite Hr.
+      f_equal. symmetry. apply Hkeep. auto.
+Qed.
+
+(* the relation preserved by every step *)
+Definition dist_pres t t' : Prop :=
+  WFS t -> WFS t' /\
+  forall a b, live t a -> live t b ->
+    live t' a /\ live t' b /\
+    exists d k k', get_distance O t a b = Ok (d, k) /\ get_distance O t' a b = Ok (d, k').
+
+Lemma dist_pres_refl t : dist_pres t t.
+Proof.
+  intros Hwfs. split; auto. intros a b Ha Hb. splits; auto. destruct Hwfs as [Hwf _].
+  destruct Hwf as [Hno|(root & r & HR & Hnd & Hlive)]; [exfalso; eapply Hno; eauto|].
+  destruct (dist_refines O _ _ _ _ _ HR Hnd (Hlive _ Ha) (Hlive _ Hb)) as (pa & pb & _ & _ & Hd).
+  cbv zeta in Hd. do 3 eexists. split; exact Hd.
+Qed.
+
+Lemma dist_pres_trans t1 t2 t3 : dist_pres t1 t2 -> dist_pres t2 t3 -> dist_pres t1 t3.
+Proof.
+  intros H12 H23 Hwfs1. destruct (H12 Hwfs1) as [Hwfs2 H12']. destruct (H23 Hwfs2) as [Hwfs3 H23'].
+  split; auto. intros a b Ha Hb.
+  destruct (H12' a b Ha Hb) as (Ha2 & Hb2 & d & k & k' & Hd1 & Hd2).
+  destruct (H23' a b Ha2 Hb2) as (Ha3 & Hb3 & d' & k2 & k3 & Hd2' & Hd3).
+  splits; auto. rewrite Hd2 in Hd2'. injection Hd2' as <- <-. eauto.
+Qed.
+
+Lemma resolve_once_dist t node c1 c2 t8 :
+  WFS t -> resolve_once_rel t node c1 c2 t8 -> dist_pres t t8.
+Proof.
+  intros Hwfs Hrel _.
+  destruct (resolve_once_up t node c1 c2 t8 Hwfs Hrel)
+    as (Hwfs8 & Hlen8 & HltP & (nN & SN & HdN & HpN & HeN) & _ & Sup).
+  split; auto. intros a b Hla Hlb.
+  assert (Hsurv : forall x, live t x -> live t8 x /\ x <> length t).
+  { intros x Hx. pose proof (live_lt _ _ Hx) as Hlt. destruct Hx as (m & Hm & Hd).
+    destruct (Sup x m Hm) as (m8 & Hm8 & Hd8 & _). split; [|lia]. exists m8. split; auto. congruence. }
+  destruct (Hsurv a Hla) as [Hla8 Hanew]. destruct (Hsurv b Hlb) as [Hlb8 Hbnew]. splits; auto.
+  pose proof Hwfs as [Hwf Hse].
+  destruct Hwf as [Hno|(root & r & HR & Hnd & Hlive)]; [exfalso; eapply Hno; eauto|].
+  pose proof Hwfs8 as [Hwf8 Hse8].
+  destruct Hwf8 as [Hno|(root8 & r8 & HR8 & Hnd8 & Hlive8)]; [exfalso; eapply Hno; eauto|].
+  destruct (dist_refines O _ _ _ _ _ HR Hnd (Hlive _ Hla) (Hlive _ Hlb)) as (pa & pb & Hpa & Hpb & Hd).
+  destruct (dist_refines O _ _ _ _ _ HR8 Hnd8 (Hlive8 _ Hla8) (Hlive8 _ Hlb8)) as (pa8 & pb8 & Hpa8 & Hpb8 & Hd8).
+  cbv zeta in Hd, Hd8.
+  pose proof (resolve_once_paths t node c1 c2 t8 root r root8 r8 Hwfs Hrel HR HR8) as Hpaths.
+  rewrite (Hpaths _ pa8 a (le_n _) Hpa8 Hanew) in Hpa. injection Hpa as <-.
+  rewrite (Hpaths _ pb8 b (le_n _) Hpb8 Hbnew) in Hpb. injection Hpb as <-.
+  destruct (lca_spec _ _ _ _ _ Hnd8 Hpa8 Hpb8) as (pc & c0 & _ & _ & Hsa & Hsb & _ & _).
+  set (ta := skipn (cpl pa8 pb8) pa8) in *. set (tb := skipn (cpl pa8 pb8) pb8) in *.
+  assert (Hdis : forall z, In z ta -> In z tb -> False).
+  { intros z. apply (lca_tails_disjoint _ _ _ _ _ z Hnd8 Hpa8 Hpb8). }
+  assert (Hsa' : pa8 = (pc ++ [c0]) ++ ta) by (rewrite <- app_assoc; exact Hsa).
+  assert (Hsb' : pb8 = (pc ++ [c0]) ++ tb) by (rewrite <- app_assoc; exact Hsb).
+  destruct (tails_filter_gen (notid (length t)) (pc ++ [c0]) ta tb Hdis) as [Eta Etb].
+  rewrite <- Hsa', <- Hsb' in Eta, Etb. rewrite Eta, Etb in Hd. rewrite <- filter_app in Hd.
+  do 3 eexists. split; [exact Hd|]. rewrite Hd8. f_equal. f_equal. symmetry.
+  apply path_len_drop0.
+  - apply NoDup_app_iff. splits.
+    + pose proof (rpath_NoDup _ _ _ Hnd8 Hpa8) as H. rewrite Hsa in H. apply NoDup_app_iff in H as (_ & H & _).
+      apply NoDup_cons_iff in H as [_ H]. auto.
+    + pose proof (rpath_NoDup _ _ _ Hnd8 Hpb8) as H. rewrite Hsb in H. apply NoDup_app_iff in H as (_ & H & _).
+      apply NoDup_cons_iff in H as [_ H]. auto.
+    + intros z H1 H2. eapply Hdis; eauto.
+  - rewrite (edge_of_nth _ _ _ SN). auto.
+  - intros x Hx. destruct (nth_error t x) as [m|] eqn:Hm.
+    + destruct (Sup x m Hm) as (m8 & Hm8 & _ & He & _).
+      rewrite (edge_of_nth _ _ _ Hm), (edge_of_nth _ _ _ Hm8). auto.
+    + unfold edge_of. rewrite Hm. apply nth_error_None in Hm.
+      rewrite (proj2 (nth_error_None t8 x)) by lia. auto.
+Qed.
+
+(* resolve leaves the length of the path between any two nodes of the old tree unchanged; only
+   x + 0 = x is used *)
+Theorem resolve_dist t t' choices a b :
+  WFS t -> resolve O t choices = Ok (Some t') -> live t a -> live t b ->
+  live t' a /\ live t' b /\
+  exists d k k', get_distance O t a b = Ok (d, k) /\ get_distance O t' a b = Ok (d, k').
+Proof.
+  intros Hwfs H Ha Hb.
+  pose proof (resolve_steps dist_pres dist_pres_refl dist_pres_trans resolve_once_dist t t' choices Hwfs H) as HP.
+  destruct (HP Hwfs) as [_ HP']. auto.
+Qed.
+
+Corollary resolve_leaf_dist t t' choices a b :
+  WFS t -> resolve O t choices = Ok (Some t') -> In a (get_leaves t) -> In b (get_leaves t) ->
+  exists d k k', get_distance O t a b = Ok (d, k) /\ get_distance O t' a b = Ok (d, k').
+Proof.
+  intros Hwfs H Ha Hb.
+  destruct (resolve_dist t t' choices a b Hwfs H (leaf_live _ _ Hwfs Ha) (leaf_live _ _ Hwfs Hb)) as (_ & _ & E).
+  exact E.
+Qed.
+
+End Laws.
+End ResolveDist.
 
 (* ==== assumptions ==== *)
 Print Assumptions prune_exact.
@@ -2380,3 +2720,7 @@ Print Assumptions ladderize_perm.
 Print Assumptions ladderize_post.
 Print Assumptions ladderize_leaves.
 Print Assumptions ladderize_dist.
+Print Assumptions compress_dist.
+Print Assumptions compress_leaf_dist.
+Print Assumptions resolve_dist.
+Print Assumptions resolve_leaf_dist.
